@@ -93,8 +93,13 @@ def run(prop, tier, seed, workers=None):
     t0 = time.time()
     mod = load_check(prop)
     spec = mod.build(tier, seed)
-    parts = spec['parts']
-    stats = engine.explore(parts, workers)
+    parts = list(spec.get('parts', []))
+    stats = engine.explore(parts, workers) if parts else {}
+    # explicit-state searches (BFS over histories) run their own exploration
+    for search in spec.get('searches', []):
+        part, st = search(workers)
+        parts.append(part)
+        stats[part.name] = st
     findings = load_findings()
 
     n_cases = sum(s['cases'] for s in stats.values())
